@@ -9,6 +9,12 @@ library's strtod / strtof round correctly is trusted (and compared bit-exactly a
 Spec/Float.lean on every run).  Known finding: white space that 488.2 allows inside a literal (before
 the exponent, after its E) ends the conversion early — `conversion_sees_literal` is therefore proved
 only for literals without inner white space and `conversion_counterexample` shows the failure.
+Second finding: strtod also recognises hexadecimal floating constants, so for the text "0x1" it converts
+three bytes (value 1) although the lexer delimits the literal "0" (and the suffix "x1"); hence the
+hypothesis `hx` of `conversion_sees_literal_partial` (witness: `Lemmas.Numeric.hexfloat_counterexample`).
+In the parser this text is a DECIMAL_NUMERIC_PROGRAM_DATA_WITH_SUFFIX token whose suffix starts with
+x/X; no row of the generated unit table starts with that letter, so the readers discard the mis-converted
+value together with the error they report (-131 from SCPI_ParamNumber, -138 from the plain readers).
 -/
 import ScpiVerif.Model.Ctx
 import ScpiVerif.Spec.Float
@@ -25,13 +31,23 @@ def literalAt (s : Bytes) : Option Bytes := (specToken .decimal s).map (fun e =>
 /-
 NOT YET PROVED (false, see conversion_counterexample): for EVERY decimal literal `t` delimited by the lexer
 in `mem` at `off`, the prefix strtod converts is `t`:   Prim.strtodLen mem off = t.length
+
+NOT YET PROVED (false as well, see Lemmas.Numeric.hexfloat_counterexample: mem = "0x1", off = 0, t = "0",
+strtodLen = 3): the same for every literal WITHOUT inner white space and without the hypothesis `hx` below:
+    theorem conversion_sees_literal_nows (mem : Bytes) (off : Nat) (t : Bytes)
+        (h : literalAt (mem.drop off) = some t) (hws : ∀ b ∈ t, b ≠ 32 ∧ b ≠ 9) :
+        Prim.strtodLen mem off = t.length
 -/
 
 /-- the conversion sees the whole literal: for a literal without inner white space, whatever follows it in
-memory, strtod / strtof convert exactly the token the lexer delimited -/
+memory, strtod / strtof convert exactly the token the lexer delimited — with one exception that `hx` excludes:
+strtod reads "0x<hex digit>" / "0x.<hex digit>" as a hexadecimal floating constant, so when the literal is a
+(signed) single "0" the byte after it must not be 'x' / 'X'.  (After any other literal an 'x' is harmless.) -/
 theorem conversion_sees_literal_partial (mem : Bytes) (off : Nat) (t : Bytes)
-    (h : literalAt (mem.drop off) = some t) (hws : ∀ b ∈ t, b ≠ 32 ∧ b ≠ 9) :
-    Prim.strtodLen mem off = t.length := Lemmas.Numeric.conversion_sees_literal_partial mem off t h hws
+    (h : literalAt (mem.drop off) = some t) (hws : ∀ b ∈ t, b ≠ 32 ∧ b ≠ 9)
+    (hx : (t = [48] ∨ t = [43, 48] ∨ t = [45, 48]) →
+      ∀ b, (mem.drop (off + t.length)).head? = some b → b ≠ 120 ∧ b ≠ 88) :
+    Prim.strtodLen mem off = t.length := Lemmas.Numeric.conversion_sees_literal_partial mem off t h hws hx
 
 /-- …and the converted text denotes a number (so that Spec/Float.lean gives its correctly rounded value) -/
 theorem literal_has_value (s t : Bytes) (h : literalAt s = some t) : (Spec.Float.litValue t).isSome = true :=
